@@ -76,7 +76,8 @@ let show_resp r =
     (if err then "-" else show_opt show_n r.r_clen) (show_ostr r.r_dig)
     (show_opt (fun (rp, e) -> hx rp ^ "+" ^ show_ep e) r.r_loc)
     (if r.r_ar then "1" else "0") (show_ostr r.r_subj) (show_descs r.r_refs)
-    (if err then "-" else hx r.r_body)
+    (* of an error response only the error code NAME_UNKNOWN is observable *)
+    (if err && r.r_body <> name_unknown then "-" else hx r.r_body)
 
 exception Unjudged
 
@@ -118,6 +119,7 @@ let parse_corruption next f =
   | "type-drop" -> KTypeDrop
   | "status" -> KStatus (n_of_int (int_of_string (next ())))
   | "loc-drop" -> KLocDrop
+  | "name-unknown" -> KNameUnknown
   | _ -> failwith "corruption"
 
 let history toks =
@@ -144,18 +146,7 @@ let history toks =
     | "-" -> None
     | k ->
       let k = n_of_int (int_of_string k) in
-      let c = match next () with
-        | "dig-other" -> KDigOther (str_of_hex (next ()))
-        | "dig-garbage" -> KDigGarbage
-        | "dig-drop" -> KDigDrop
-        | "len-inc" -> KLenInc
-        | "len-drop" -> KLenDrop
-        | "type-other" -> KTypeOther
-        | "type-garbage" -> KTypeGarbage
-        | "type-drop" -> KTypeDrop
-        | "status" -> KStatus (n_of_int (nexti ()))
-        | "loc-drop" -> KLocDrop
-        | _ -> failwith "corruption" in
+      let c = parse_corruption next (next ()) in
       Some (k, c) in
   let np = nexti () in
   let pool = Array.init np (fun _ ->
